@@ -517,7 +517,7 @@ def explore_config(args):
             n_viol_execs += 1
 
     stats = explore(lambda ch: run_once(cfg, ch), on_exec, max_executions=max_exec,
-                    state_ns=None, outcome_of=outcome_fp)
+                    state_ns=None, outcome_of=outcome_fp, stop_when=lambda: n_viol_execs >= 500)
     return {
         'cfg': cfg.brief(), 'executions': stats.executions, 'states': len(stats.states),
         'transitions': len(stats.transitions), 'outcomes': len(stats.outcomes), 'capped': stats.capped,
